@@ -73,6 +73,7 @@ Definition cSTRSUB := 12.  Definition cTUPSUB := 13.
 Definition cNPBOOL := 19.  Definition cIDXOBJ := 20. Definition cFLTOBJ := 21.
 Definition cCPXOBJ := 22.  Definition cFUNCTION := 23. Definition cTYPE := 24.
 Definition cMODULE := 25.  Definition cOTHER := 26.  Definition cBUILTINFN := 28.
+Definition cNDARRAY := 29.
 (* user classes: >= 100 *)
 
 (* ---------- values ---------- *)
@@ -100,7 +101,8 @@ Inductive pv :=
 | PType (cls : Z)                    (* a class object *)
 | PCallable (n : Z)                  (* 0: Python function, otherwise built-in function *)
 | PModule (n : Z)
-| POther (n : Z).                    (* dict / set / object(): unhashable iff n < 0 *)
+| POther (n : Z)                     (* dict / set / object(): unhashable iff n < 0 *)
+| PArray (dt : Z) (shape : list Z) (cid : Z).  (* numpy.ndarray: dtype id, shape, content id *)
 
 Definition class_of (v : pv) : Z :=
   match v with
@@ -116,6 +118,7 @@ Definition class_of (v : pv) : Z :=
   | PType _ => cTYPE
   | PCallable n => if n =? 0 then cFUNCTION else cBUILTINFN
   | PModule _ => cMODULE | POther _ => cOTHER
+  | PArray _ _ _ => cNDARRAY
   end.
 
 (* ---------- structural equality (same type tag, same atom) ---------- *)
@@ -156,6 +159,7 @@ Fixpoint pv_eqb (a b : pv) : bool :=
   | PObj c i, PObj c' i' => (c =? c') && (i =? i')
   | PType c, PType c' => c =? c'
   | PCallable n, PCallable m | PModule n, PModule m | POther n, POther m => n =? m
+  | PArray k s c, PArray k' s' c' => (k =? k') && zlist_eqb s s' && (c =? c')
   | _, _ => false
   end.
 
@@ -204,7 +208,7 @@ Definition py_in (v : pv) (l : list pv) : bool := existsb (py_eq v) l.
 
 Fixpoint hashable (v : pv) : bool :=
   match v with
-  | PList _ => false
+  | PList _ | PArray _ _ _ => false
   | POther n => 0 <=? n
   | PTuple l | PTupleSub l => forallb hashable l
   | _ => true
